@@ -102,6 +102,60 @@ def _mk_solver(kind: str, timeout_s: float) -> Any:
 PORTFOLIO = (("z3", 0.15), ("z3-arith2", 0.35), ("z3-qflia", 0.2), ("z3", 0.3))
 
 
+_VARS_CACHE: dict[int, frozenset] = {}
+
+
+def _consts_of(t: Any) -> frozenset:
+    """Names of the uninterpreted constants occurring in a z3 term (memoised on the term id)."""
+    k = t.get_id()
+    hit = _VARS_CACHE.get(k)
+    if hit is not None:
+        return hit
+    out: set[str] = set()
+    seen: set[int] = set()
+    stack = [t]
+    while stack:
+        x = stack.pop()
+        i = x.get_id()
+        if i in seen:
+            continue
+        seen.add(i)
+        if z3.is_app(x):
+            if x.num_args() == 0:
+                if x.decl().kind() == z3.Z3_OP_UNINTERPRETED:
+                    out.add(x.decl().name())
+            else:
+                stack.extend(x.children())
+        elif z3.is_quantifier(x):
+            stack.append(x.body())
+    r = frozenset(out)
+    if len(_VARS_CACHE) < 200000:
+        _VARS_CACHE[k] = r
+    return r
+
+
+def _cone(assumptions: list[Any], negated_goal: Any) -> list[Any]:
+    """Cone of influence: the assumptions transitively sharing an uninterpreted constant with the goal.
+    Dropping assumptions only weakens the hypothesis, so `unsat` on the slice proves the full VC."""
+    want = set(_consts_of(negated_goal))
+    pool = [(a, _consts_of(a)) for a in assumptions]
+    picked: list[Any] = []
+    changed = True
+    while changed:
+        changed = False
+        rest = []
+        for a, vs in pool:
+            if vs & want:
+                picked.append(a)
+                if not vs <= want:
+                    want |= vs
+                    changed = True
+            else:
+                rest.append((a, vs))
+        pool = rest
+    return picked
+
+
 def discharge(vc: VC, base: list[Any], timeout_s: float, use_cvc5: bool = True, axioms: Any = None) -> None:
     """Refute base and pc and not cond  with a small solver portfolio (z3's new and old arithmetic cores, the
     qflia tactic, then cvc5).  `unknown` from every member leaves the VC undecided -- never a violation."""
@@ -109,7 +163,24 @@ def discharge(vc: VC, base: list[Any], timeout_s: float, use_cvc5: bool = True, 
     if z3.is_true(vc.cond):
         vc.status, vc.backend = "proved", "trivial"
         return
-    goal = list(base) + list(vc.pc) + [z3.Not(vc.cond)]
+    hyps = list(base) + list(vc.pc)
+    neg = z3.Not(vc.cond)
+    # first attempt on the cone of influence of the goal (sound: fewer hypotheses); only `unsat` is accepted from it
+    try:
+        cone = _cone(hyps, neg)
+        if len(cone) < len(hyps):
+            for kind in ("z3-arith2", "z3"):
+                s0 = _mk_solver(kind, min(4.0, timeout_s * 0.15))
+                for t in cone:
+                    s0.add(t)
+                s0.add(neg)
+                if s0.check() == z3.unsat:
+                    vc.status, vc.backend = "proved", kind + "/cone"
+                    vc.time_s = time.time() - t0
+                    return
+    except z3.Z3Exception:
+        pass
+    goal = hyps + [neg]
     if axioms is not None:
         goal = goal + list(axioms(goal))
     vc.status = "unknown"
@@ -536,9 +607,9 @@ def _replay_abstract(c: Contract, vals: dict[str, Any], ev: Any) -> dict[str, An
     last_err = ""
     first_ord = {n: ev(vals[n].ordinal) for n in cal_names}
     candidates = [dict(first_ord)] + [{n: o for n in cal_names} for o in range(19)]
-    iso_names = {n for n, g in gens.items() if type(g).__name__ == "IsoAbsCalG"}
-    if iso_names:
-        candidates = [{n: (0 if n in iso_names else o.get(n, 0)) for n in cal_names} for o in candidates]
+    fixed = {n: g.fixed_ordinal for n, g in gens.items() if getattr(g, "fixed_ordinal", None) is not None}
+    if fixed:
+        candidates = [{n: (fixed[n] if n in fixed else o.get(n, 0)) for n in cal_names} for o in candidates]
         seen_c: list[dict] = []
         for o in candidates:
             if o not in seen_c:
@@ -561,7 +632,7 @@ def _replay_abstract(c: Contract, vals: dict[str, Any], ev: Any) -> dict[str, An
     for _ in range(120):
         attempts.append((rng.choice(candidates), rand_ev, True))
     for over, use_ev, randomised in attempts:
-        ctx: dict[str, Any] = {"ordinal_override": dict(over)}
+        ctx: dict[str, Any] = {"ordinal_override": dict(over), "randomised": randomised, "rng": rng}
         try:
             cvals: dict[str, Any] = {}
             for n, g in c.ghosts + c.args + c.kwargs:
